@@ -312,8 +312,34 @@ def r6_bound_is_last_emitted(ctx):
               fa.where(), {'guard_fields': sorted(guard), 'emitted_time_fields': sorted(emitted)})
 
 
+def r7_relative_scheduling(ctx, cfg='A'):
+    """add_event_in(e, d) files e under exactly clock + d: the handler then sees now() == the timestamp the caller asked for"""
+    ctx.set_rule('C02.R7', cfg)
+    P = ctx.progs[cfg]
+    f = P.fns.get('des::runtime::Runtime::add_event_in')
+    if f is None:
+        ctx.violation('anchor:add_event_in', 'unresolved-anchor Runtime::add_event_in'); return
+    ctx.touch(f)
+    adds = [s for s in f.calls() if s.name == 'des::runtime::Runtime::add_event' or s.name.endswith('FutureEventSet::add')]
+    if not ctx.floor('scheduling call in add_event_in', len(adds), 1):
+        return
+    for s in adds:
+        tm = [peel(f.expr_operand(a, s.b, 'T')) for a in s.args]
+        tm = [t for t in tm if t[0] == 'call' and t[1].endswith('::add') and len(t[2]) == 2]
+        ok = False
+        for t in tm:
+            base, d = peel(t[2][0]), peel(t[2][1])
+            is_clock = base[0] == 'call' and base[1] in ('des::runtime::Runtime::sim_time', 'des::time::SimTime::now') and not any(x[0] == 'call' and x[1].split('::')[-1] in ('max', 'min') for x in walk(base))
+            is_dur = d[0] == 'arg' or (d[0] == 'call' and d[2] and peel(d[2][0])[0] == 'arg')
+            ok = ok or (is_clock and is_dur)
+        ctx.check(ok, 'relative-base-is-clock', 'add_event_in schedules at the current simulation clock + the given duration (no other base time)', s.where(),
+                  [show(t)[:160] for t in tm])
+
+
 def run(ctx):
     r6_bound_is_last_emitted(ctx)
+    for cfg in [c for c in ('A', 'B') if c in ctx.progs]:
+        r7_relative_scheduling(ctx, cfg)
     for cfg in [c for c in ('A', 'B') if c in ctx.progs]:
         r1_single_writer(ctx, cfg)
         r2_dispatch_order(ctx, cfg)
